@@ -329,68 +329,50 @@ theorem concurrent_nonok_order_irrelevant (c : Cfg) (hmax : 1 ≤ c.max) (s : St
     (step_nonok c _ b (n + 1) hmax (step_nonok c s a n hmax hi ha) hb)
     (step_nonok c _ a (n + 1) hmax (step_nonok c s b n hmax hi hb) ha)
 
-/-! ## A result whose state-change report is overtaken by the next result (F-C01a)
+/-! ## A result whose state-change report is overtaken by the next result (F-C01a, repaired by b75b8e7)
 
-FULL STATEMENT — does NOT hold of the unchanged code (checkable-check.cpp:453 re-reads `GetStateType()` after
-the locked sections and after `OnNewCheckResult`):
+The emission site used to re-read `GetStateType()` after the locked sections and after `OnNewCheckResult`; a
+result held there reported according to what the NEXT result had written (witness kept in
+corpus/C01/witnesses.ops).  The repaired code reports from the state type it computed itself, and the full
+statement holds. -/
 
-    ∀ c s a b, (stepOvertaken c s a b).1.2 = (stepCore c s a).2
+/-- **overtaken_event.**  A result reports the event the rule gives it at its place in the sequence, whatever is
+    processed before it gets to report; and the overtaking result is an ordinary next step. -/
+theorem overtaken_event (c : Cfg) (s : St) (a b : Res) :
+    (stepOvertaken c s a b).1 = stepCore c s a ∧
+    (stepOvertaken c s a b).2 = stepCore c (stepCore c s a).1 b := ⟨rfl, rfl⟩
 
-i.e. a result reports the event the rule gives it at its place in the sequence, whatever is processed before
-it gets to report.  Proved: the partial statement under the exact extra hypothesis, and the counterexample. -/
-
-/-- Reading its own state type, the emission is the sequential one. -/
-theorem eventRead_own (c : Cfg) (s : St) (new : SState) (t : SType) : eventRead c s new t t = eventOf c s new t := rfl
-
-/-- **overtaken_event_partial.**  The overtaken result reports the event of the sequential rule whenever the
-    overtaking result leaves the same state type, or the event is a hard one, or the result is a state change —
-    exactly the cases in which the late re-read cannot matter. -/
-theorem overtaken_event_partial (c : Cfg) (s : St) (a b : Res)
-    (h : (stepCore c (stepCore c s a).1 b).1.stype = (stepCore c s a).1.stype ∨ (stepCore c s a).2 = .hard ∨
-         stateChange c.kind s.state a.state = true) :
-    (stepOvertaken c s a b).1.2 = (stepCore c s a).2 := by
-  rcases h with h | h | h
-  · simp only [stepOvertaken, h]; rfl
-  · have h' : eventOf c s a.state (stepCore c s a).1.stype = .hard := h
-    show eventRead c s a.state (stepCore c s a).1.stype _ = eventOf c s a.state (stepCore c s a).1.stype
-    unfold eventOf at h' ⊢
-    unfold eventRead
-    dsimp only at h' ⊢
-    by_cases hc : (hardChangeOf c s a.state (stepCore c s a).1.stype ||
-        (c.volatile && !(isOK c.kind s.state && isOK c.kind a.state))) = true
-    · rw [if_pos hc, if_pos hc]
-    · rw [if_neg hc] at h'; split at h' <;> simp at h'
-  · simp only [stepOvertaken, stepCore, eventRead, eventOf, h, Bool.true_or]
-
-/-- **overtaken_event_counterexample** (F-C01a).  Service, max 3, one CRITICAL after OK (soft, attempt 1):
-    the second CRITICAL is a soft re-check and must report a soft event; overtaken by a third CRITICAL
-    (which makes the service hard) it reports nothing.  And a repeated OK on a hard-OK service, overtaken by a
-    CRITICAL, reports a soft event instead of none. -/
-theorem overtaken_event_counterexample :
-    (stepCore exampleCfgO { pending with state := .critical, attempt := 1, lastHard := .ok } ⟨.critical, 3, 3⟩).2 = .soft ∧
-    (stepOvertaken exampleCfgO { pending with state := .critical, attempt := 1, lastHard := .ok }
-        ⟨.critical, 3, 3⟩ ⟨.critical, 3, 3⟩).1.2 = .none ∧
-    (stepCore exampleCfgO { pending with state := .ok, stype := .hard, lastHard := .ok } ⟨.ok, 3, 3⟩).2 = .none ∧
-    (stepOvertaken exampleCfgO { pending with state := .ok, stype := .hard, lastHard := .ok }
-        ⟨.ok, 3, 3⟩ ⟨.critical, 3, 3⟩).1.2 = .soft := by
-  decide
-
-/-- **overtaken_meets_spec_partial.**  Under the hypothesis of `overtaken_event_partial` the observation of
-    the overtaken result satisfies the whole specification for its line of the trace. -/
-theorem overtaken_meets_spec_partial (c : Cfg) (hmax : 1 ≤ c.max) (sp : SpecSt) (h : HistSt) (s : St) (a b : Res)
-    (hr : Rel c sp s) (hh : HRel c h s)
-    (hyp : (stepCore c (stepCore c s a).1 b).1.stype = (stepCore c s a).1.stype ∨ (stepCore c s a).2 = .hard ∨
-           stateChange c.kind s.state a.state = true) :
-    (overtakenStep c sp h a (obsOf c ((stepOvertaken c s a b).1.1, (stepOvertaken c s a b).1.2, true))).1 = none := by
-  rw [overtaken_event_partial c s a b hyp]
-  have e1 := (spec_step c hmax sp s a hr).1
-  have e2 := (hist_step c h s a hh).1
-  have e0 : (stepOvertaken c s a b).1.1 = (stepCore c s a).1 := rfl
-  have hacc : (obsOf c ((stepCore c s a).1, (stepCore c s a).2, true)).accepted = true := rfl
-  rw [e0]
-  unfold overtakenStep fullStep
-  simp only [hacc, if_true, e1, e2]
-  rfl
+/-- **overtaken_meets_spec.**  Both halves of an overtaken pair satisfy the whole specification for their line
+    of the trace (state, attempt, event, hard-state bookkeeping), from every state related to the reader's
+    bookkeeping — the first under the clause name of F-C01a — and the relations are kept. -/
+theorem overtaken_meets_spec (c : Cfg) (hmax : 1 ≤ c.max) (sp : SpecSt) (h : HistSt) (s : St) (a b : Res)
+    (hr : Rel c sp s) (hh : HRel c h s) :
+    let oa := obsOf c ((stepOvertaken c s a b).1.1, (stepOvertaken c s a b).1.2, true)
+    let ob := obsOf c ((stepOvertaken c s a b).2.1, (stepOvertaken c s a b).2.2, true)
+    (overtakenStep c sp h a oa).1 = none ∧
+    (fullStep c (overtakenStep c sp h a oa).2.1 (overtakenStep c sp h a oa).2.2 b ob).1 = none := by
+  intro oa ob
+  obtain ⟨e1, r1⟩ := spec_step c hmax sp s a hr
+  obtain ⟨e2, h1⟩ := hist_step c h s a hh
+  obtain ⟨f1, _⟩ := spec_step c hmax _ _ b r1
+  obtain ⟨f2, _⟩ := hist_step c _ _ b h1
+  have hacc : oa.accepted = true := rfl
+  have hacc' : ob.accepted = true := rfl
+  have hfa : fullStep c sp h a oa = (none, specNext c sp a.state, histNext h a oa) := by
+    unfold fullStep; simp only [hacc, if_true]
+    show ((specStep c sp a.state (obsOf c ((stepCore c s a).1, (stepCore c s a).2, true))).or
+      (histStep c h a.state (obsOf c ((stepCore c s a).1, (stepCore c s a).2, true))), _, _) = _
+    rw [e1, e2]; rfl
+  have hoa : overtakenStep c sp h a oa = (none, specNext c sp a.state, histNext h a oa) := by
+    unfold overtakenStep; rw [hfa]
+  rw [hoa]
+  refine ⟨rfl, ?_⟩
+  unfold fullStep; simp only [hacc', if_true]
+  show ((specStep c (specNext c sp a.state) b.state
+      (obsOf c ((stepCore c (stepCore c s a).1 b).1, (stepCore c (stepCore c s a).1 b).2, true))).or
+    (histStep c (histNext h a (obsOf c ((stepCore c s a).1, (stepCore c s a).2, true))) b.state
+      (obsOf c ((stepCore c (stepCore c s a).1 b).1, (stepCore c (stepCore c s a).1 b).2, true)))) = none
+  rw [f1, f2]; rfl
 
 /-! ## Non-vacuity: concrete, non-trivial instances of the hypotheses and of the specification -/
 
@@ -486,6 +468,13 @@ example : specPair exampleCfg { everOk := true, streak := 1, prev := .critical }
 example : pairStep exampleCfg specInit (some 5) .ok .critical 5
     { accA := true, accB := false, state := .ok, stype := .hard, attempt := 1, lastHard := .ok, hardA := 1, hardB := 0 }
     = some .droppedAlthoughNotOlder := by decide
+
+/-- The specification is not vacuous there: the report the unrepaired code gave in the witness of F-C01a (service,
+    max 3, OK, CRITICAL, then CRITICAL overtaken by CRITICAL: no event for the soft re-check) is rejected under
+    the clause's own name. -/
+example : (overtakenStep exampleCfgO { everOk := true, streak := 1, prev := .critical }
+      { last := none, hardAt := none, lastExec := some 2 } ⟨.critical, 3, 3⟩
+      (svcObs true .critical .soft 2 .ok .none 99 .critical)).1 = some .eventOvertaken := by decide
 
 /-- `NonDecr` holds of the example history from the pending state (premise of
     `streak_characterisation_run`). -/
